@@ -90,6 +90,21 @@ PROPS = {
         "ambiguity (ties, percentile cut where nearest-rank readings differ, "
         "default threshold unit) abstain and are counted.",
     },
+    "C04": {
+        "flavours": ["asan"],
+        "runs": {"quick": 2500, "thorough": 80000},
+        "rule": KILL_RULE + "; every plan is executed twice on the same sim "
+        "root: wet in a forked grandchild and with dry=true forced on every "
+        "kill / systemd_restart action; processes survive SIGKILL and sleeps "
+        "do not advance the clock in these worlds so that both histories stay "
+        "aligned; non-trivial = at least one invocation compared",
+        "level_text": "seeded differential exploration: the dry execution "
+        "must show zero kill/setxattr/control-file/pidfd/process_mrelease/"
+        "D-Bus events and unchanged oomd.kills / oomd.restarts, select the "
+        "victim the wet run attempted first, mark it (dry), return STOP "
+        "(unless always_continue) and run again at the same ticks as the wet "
+        "run (same pause).",
+    },
     "C02": {
         "flavours": ["asan"],
         "runs": {"quick": 4000, "thorough": 150000},
